@@ -4,6 +4,7 @@
 package core
 
 import (
+	"runtime"
 	"strconv"
 	"strings"
 
@@ -79,8 +80,8 @@ var packedZero = string([]byte{PackPlus})
 
 // Pack is a convenience function that packs a single Packable.
 //
-// WARNING: It's possible to get a buffer overflow if a mutable value
-// (e.g. object) is modified between/during PackSize and Pack.
+// If a mutable value (e.g. object) is modified between/during
+// PackSize and Pack it panics with "object modified during packing"
 func Pack(x Packable) string {
 	switch x {
 	case emptyStr:
@@ -97,11 +98,27 @@ func Pack(x Packable) string {
 	CheckStringSize("Pack", size)
 	buf := pack.NewEncoder(size)
 	hash2 := uint64(17)
-	x.Pack(&hash2, buf)
+	packChecked(x, &hash2, buf)
 	if hash1 != hash2 || len(buf.Buffer()) != size {
 		panic("object modified during packing")
 	}
 	return buf.String()
+}
+
+// packChecked calls x.Pack and handles the buffer overflow that results
+// if the value has grown since PackSize
+// (Pack methods assume capacity is sufficient)
+func packChecked(x Packable, hash *uint64, buf *pack.Encoder) {
+	defer func() {
+		if e := recover(); e != nil {
+			if re, ok := e.(runtime.Error); ok &&
+				strings.Contains(re.Error(), "out of range") {
+				panic("object modified during packing")
+			}
+			panic(e)
+		}
+	}()
+	x.Pack(hash, buf)
 }
 
 // Unpack returns the decoded value
